@@ -25,6 +25,7 @@ import GM.Proof.IndepEnd
 import GM.Props.C09Shift
 import GM.Props.C09Prefix
 import GM.Props.C09E2E
+import GM.Props.C08E2ETotal
 
 namespace GM.Props.C09
 open GM GM.Refs
@@ -426,5 +427,15 @@ theorem heading_then_blocks_html_good_lines : type_of% @GM.Props.C09E2E.heading_
 
 /-- (re-export of `GM.Props.C09E2E.heading_then_blocks_html_checked`) **… with decidable hypotheses** (`GM.Props.C08E2E.goodLinesCheck`: run the block phase, test every block with inline content) -/
 theorem heading_then_blocks_html_checked : type_of% @GM.Props.C09E2E.heading_then_blocks_html_checked := @GM.Props.C09E2E.heading_then_blocks_html_checked
+
+/-- (re-export of `GM.Props.C08E2ETotal.heading_then_blocks_html_total`) **C09 first half at HTML level, empty `A`, given the inline invariant**: `"# h\n"` and `b` convert, and `"\n# h\n\n" ++ b`
+    converts to the concatenation -/
+theorem heading_then_blocks_html_total : type_of% @GM.Props.C08E2ETotal.heading_then_blocks_html_total := @GM.Props.C08E2ETotal.heading_then_blocks_html_total
+
+/-- (re-export of `GM.Props.C08E2ETotal.heading_then_blocks_html_good_lines_total`) **no inline hypothesis: plain-text inline content** (`GoodBlocks`) -/
+theorem heading_then_blocks_html_good_lines_total : type_of% @GM.Props.C08E2ETotal.heading_then_blocks_html_good_lines_total := @GM.Props.C08E2ETotal.heading_then_blocks_html_good_lines_total
+
+/-- (re-export of `GM.Props.C08E2ETotal.heading_then_blocks_html_checked_total`) **… all hypotheses decidable** -/
+theorem heading_then_blocks_html_checked_total : type_of% @GM.Props.C08E2ETotal.heading_then_blocks_html_checked_total := @GM.Props.C08E2ETotal.heading_then_blocks_html_checked_total
 
 end GM.Props.C09
